@@ -329,7 +329,7 @@ func TestPropLoadKey(t *testing.T) {
 	all := fileKeys()
 	dir := t.TempDir()
 	n := 0
-	ev.Check(t, 1500, 15000, func(t *rapid.T) {
+	ev.Check(t, 1500, 60000, func(t *rapid.T) {
 		n++
 		path := filepath.Join(dir, fmt.Sprintf("k%d.json", n%64))
 		mode := rapid.IntRange(0, 19).Draw(t, "mode")
